@@ -2007,6 +2007,15 @@ func (c *Cache) additionalAnswer(ctx context.Context, msg *dns.Msg) *dns.Msg {
 				edeCode, edeText = ede.InfoCode, ede.ExtraText
 			}
 			out := dnsutil.SetRcodeWithEDE(msg, dns.RcodeServerFailure, do, edeCode, edeText)
+			if out.IsEdns0() == nil {
+				// A message rebuilt from a cache entry carries no OPT
+				// (admission strips it; the edns writer attaches the
+				// client's), so the error had nowhere to go. Give it one:
+				// the writer keeps extended errors of a response OPT and
+				// drops the OPT altogether for a client without EDNS.
+				out.SetEdns0(dnsutil.DefaultMsgSize, do)
+				dnsutil.SetEDE(out, edeCode, edeText)
+			}
 			if localErr := middleware.RequestLocalFailureForResponse(ctx, respCname); localErr != nil {
 				middleware.MarkRequestLocalFailureResponse(ctx, out, localErr)
 			}
